@@ -5,6 +5,9 @@
  *                         computation is logged as (length, byte at the ghost position vf_md5_k, arbitrary digest)
  *   radius_pkt_attr_find_raw loop = its loop contract (loops/radius_find_raw.json, applied without --dfcc)
  *   password loops, libc byte loops, timingsafe_bcmp = unwound to their constant bounds (unwinding assertions)
+ * radius_pkt_sign: bounded variant: the packet is BUILT by the library in a fixed array of VF_SIGN_N bytes (radius_pkt_init +
+ * one generic attribute + a User-Password of <= 6 bytes, every code / capacity), then signed; all loops unwound.  (With an arbitrary
+ * packet, loop contract or not, symex does not get through the in-place password hiding at a symbolic offset.)
  * (The --dfcc modular jobs for these drivers ran out of memory: 12 GB.)  */
 #define VF_MD5_GHOST_BODY
 #define VF_RAD_LIBC_LOOP
@@ -24,6 +27,10 @@ size_t vf_hm_key_len[VF_HM_TBL + 1], vf_hm_n, vf_hm_len[VF_HM_TBL];
 uint8_t vf_hm_at[VF_HM_TBL], vf_hm_dig[VF_HM_TBL][16];
 
 /* HMAC input at position k for a Message-Authenticator at o, authenticator field taken from `a16` */
+#ifndef VF_SIGN_N
+#define VF_SIGN_N 64
+#endif
+#define VF_RAD_INIT_COPIES(c)	(!((c) == 4 || (c) == 40 || (c) == 43))	/* radius_pkt_init copied the given authenticator */
 #define MA_IN(k, pkt, o, a16)	(((k) >= 4 && (k) < 20) ? (a16) : ((k) >= (o) + 2 && (k) < (o) + 18) ? (uint8_t)0 : (pkt)[(k)])
 
 void harness(void) {
@@ -43,7 +50,26 @@ void harness(void) {
 #else
 	VF_ASSUME(len0 >= VF_RAD_HDR_SIZE && len0 <= cap);
 #endif
-#ifndef VF_REPLAY
+#if defined(VF_FN_sign) && !defined(VF_REPLAY)
+	/* sign: bounded job, the packet lives in a fixed array of VF_SIGN_N bytes (capacity cap <= VF_SIGN_N),
+	 * arbitrary content, every loop fully unwound (the attribute search included) */
+	VF_NONDET_BYTES(store, VF_SIGN_N);
+	VF_NONDET_BYTES(pwtext, 16);
+	VF_NONDET_BYTES(val1, 16);
+	VF_NONDET_BYTES(auth0, 16);
+	VF_NONDET(uint8_t, code0); VF_NONDET(uint8_t, id0); VF_NONDET(uint8_t, t1); VF_NONDET(uint8_t, l1); VF_NONDET(uint8_t, pwl);
+	VF_ASSUME(cap <= VF_SIGN_N && l1 <= 4 && pwl <= 6 && t1 != 2 && t1 != 3 && t1 != 80);
+	pkt = store.b;
+	key = nondet_bool() ? NULL : malloc(key_len);
+	req = NULL;
+	{	/* the packet to sign: header + one generic attribute + a User-Password, built by the library */
+		size_t sz = 0;
+		VF_ASSUME(radius_pkt_init((rad_pkt_hdr_p)pkt, cap, &sz, code0, id0, auth0.b) == 0);
+		VF_ASSUME(radius_pkt_attr_add((rad_pkt_hdr_p)pkt, cap, &sz, t1, l1, val1.b, NULL) == 0);
+		VF_ASSUME(radius_pkt_attr_add((rad_pkt_hdr_p)pkt, cap, &sz, 2, pwl, pwtext.b, NULL) == 0);
+		VF_ASSUME(len0 == sz);
+	}
+#elif !defined(VF_REPLAY)
 	pkt = malloc(cap);
 	VF_ASSUME(pkt != NULL);
 	key = nondet_bool() ? NULL : malloc(key_len);
@@ -85,8 +111,9 @@ void harness(void) {
 	VF_ASSERT(!(vf_hm_n == 1 && (r == 0 || r == EBADMSG) && o >= 20 && o + 18 <= len0) || ((r == 0) == VF_HM_DIG_IS(pkt + o + 2, 0)),
 	    "accepted <=> all 16 value bytes equal the digest");
 #else
-	VF_ASSERT(vf_rad_k >= cap || (r == 0 && vf_rad_k >= o + 2 && vf_rad_k < o + 18) ||
-	    ((r == EINVAL || r == EBADMSG) && vf_hm_n >= 1) || pkt[vf_rad_k] == before, "frame: only the 16 value bytes change");
+	/* (error paths after the attribute was located may leave its value zeroed / overwritten) */
+	VF_ASSERT(vf_rad_k >= cap || pkt[vf_rad_k] == before ||
+	    ((r == 0 || r == EINVAL || r == EBADMSG) && o >= 20 && vf_rad_k >= o + 2 && vf_rad_k < o + 18), "frame: only the 16 value bytes of that attribute can change");
 #endif
 #elif defined(VF_FN_verify)
 	r = radius_pkt_verify(p, key, key_len, rq);
@@ -122,6 +149,16 @@ void harness(void) {
 			/* ... computed over the final packet bytes (authenticator field as it was: the request authenticator / placeholder) */
 			VF_ASSERT(vf_md5_k >= len1 || vf_hm_at[0] == MA_IN(vf_md5_k, pkt, o, before_auth),
 			    "HMAC input == the FINAL packet bytes, Message-Authenticator value as zeros, authenticator field as at entry");
+		}
+		/* the User-Password was hidden in place first (RFC 2865 5.2, one block): c = p xor MD5(secret || request authenticator) */
+		{
+			size_t po = 20 + 2 + l1 + 2;	/* value of the User-Password attribute */
+			VF_NONDET(size_t, m);
+			VF_ASSUME(m < 16);
+			VF_ASSERT(vf_md5_n >= 1 && vf_md5_len[0] == key_len + 16, "password: first MD5 over |secret| + 16 bytes");
+			VF_ASSERT(vf_md5_k >= key_len + 16 || vf_md5_at[0] == ((vf_md5_k < key_len) ? key[vf_md5_k] : auth0.b[vf_md5_k - key_len]) ||
+			    !VF_RAD_INIT_COPIES(code0), "password: MD5 input == secret || request authenticator");
+			VF_ASSERT(pkt[po + m] == (uint8_t)(((m < pwl) ? pwtext.b[m] : 0) ^ vf_md5_dig[0][m]), "password: hidden value == padded password xor digest");
 		}
 		/* the authenticator is computed last, over the final bytes (Message-Authenticator digest included) */
 		na = vf_md5_n;
